@@ -267,6 +267,12 @@ def summarize(r, rundir, truth, want=(), oracles=()):
     res["table_meta"] = meta
     res["sorted_digests"] = {k: hashlib.sha256(b"\n".join(sorted(v.split(b"\n")))).hexdigest()[:20]
                              for k, v in files.items()}
+    # ... and the same with the exon_id attribute of GTF lines removed (its numbering follows the order in which the models of a
+    # chromosome are printed; a property that speaks about WHICH alignments are kept does not speak about that numbering)
+    import re as _re
+    res["sorted_digests_no_exon_id"] = {
+        k: (hashlib.sha256(b"\n".join(sorted(_re.sub(rb' exon_id "[^"]*";', b"", v).split(b"\n")))).hexdigest()[:20]
+            if k.endswith(".gtf") else res["sorted_digests"][k]) for k, v in files.items()}
     if "labels" in want:
         res["labels"] = simrun.event_labels(r["trace"])
     if "trace" in want:
